@@ -76,7 +76,13 @@ def _bytes_from_known_interfaces(obj: Any) -> bytes | None:
     """
     # Priority: to_bytes
     try:
-        if hasattr(obj, "to_bytes") and callable(getattr(obj, "to_bytes")):
+        # ``int.to_bytes`` is not a serialisation interface: it would map 0/False and
+        # 1/True to the same byte and reject values above 255
+        if (
+            not isinstance(obj, int)
+            and hasattr(obj, "to_bytes")
+            and callable(getattr(obj, "to_bytes"))
+        ):
             b = obj.to_bytes()  # type: ignore[misc]
             if isinstance(b, (bytes, bytearray, memoryview)):
                 return bytes(b)
